@@ -683,9 +683,9 @@ impl Grid {
             let mut prev_pos = self.pos;
             self.pos.col = 0;
             let scrolled = self.row_inc_scroll(1);
-            if scrolled > prev_pos.row {
-                // the line we wrapped from has scrolled off the top of a
-                // one-line screen, so there is nothing left to mark
+            if scrolled > 0 && self.scroll_top == self.scroll_bottom {
+                // the line we wrapped from has scrolled out of a one-line
+                // screen or scroll region, so there is nothing left to mark
                 return;
             }
             prev_pos.row -= scrolled;
